@@ -73,6 +73,10 @@ def run(chk):
             # returned (i % 8 = 1: BatchVisualSort, 4: BatchSort) or by the retrieving thread (6): far more scenes than
             # voting threads
             nb, nsc, big = 2, 12, ["--nv", 1 + (i // 8) % 2]
+        if i % 8 in (2, 7):
+            # batches over disjoint scene sets submitted back to back while a second thread retrieves (2: BatchSort,
+            # 7: BatchVisualSort): a batch waits for the previous one whatever scenes it carries
+            big = ["--pattern", "aba"]
         ok = vlib.run_recorder(chk, [vlib.VH, "record", "batch", "--kind", kind, "--seed", chk.seed * 100000 + i, "--batches", nb,
                                      "--scenes", nsc, "--delay-us", dly, "--out", trace] + big
                                + (["--getter", "1"] if i % 4 >= 2 else []), "batch:record", timeout=300)
